@@ -154,6 +154,29 @@ func wireBits(spec *Sx, m *iso8583.Message, packed []byte) ([]int, bool) {
 	return bits, true
 }
 
+// every node of a value term as a dotted tag path below prefix
+func valuePaths(v *Sx, prefix string, acc map[string]bool) {
+	acc[prefix] = true
+	if v != nil && v.Head() == "C" {
+		for _, e := range v.List[1].List {
+			valuePaths(e.List[1], prefix+"."+string(e.List[0].Hex()), acc)
+		}
+	}
+}
+
+// the observable value of data element id as a term (nil when absent or not printable)
+func observedVal(m *iso8583.Message, id int) *Sx {
+	f, ok := m.GetFields()[id]
+	if !ok {
+		return nil
+	}
+	t, err := parseSx(showVal(f))
+	if err != nil {
+		return nil
+	}
+	return t
+}
+
 func presentIDs(m *iso8583.Message) []int {
 	var ids []int
 	for id := range m.GetFields() {
@@ -253,9 +276,142 @@ func init() {
 		}
 		var fs []Finding
 		steps := 0
+		// the reference set: the data elements written since creation or the last Unpack, minus those unset since
+		want := map[int]bool{}
+		prevObs := map[int]*Sx{}
+		known := true
+		mtiWritten := false
+		resync := func(m *iso8583.Message, only map[int]bool) {
+			got := m.GetFields()
+			for id := range got {
+				if id >= 2 && (only == nil || only[id]) {
+					want[id] = true
+				}
+			}
+			for id := range want {
+				if _, ok := got[id]; !ok && (only == nil || only[id]) {
+					delete(want, id)
+				}
+			}
+		}
 		replayMsg(spec, a[1].List, func(i int, o *Sx, m *iso8583.Message) {
 			if len(fs) > 0 || o.Head() == "get" || o.Head() == "note" {
 				return
+			}
+			switch o.Head() {
+			case "mti":
+				mtiWritten = true
+			case "field", "setval":
+				// whether a setter that fails leaves the element populated is not part of this reference: take it from the object
+				resync(m, map[int]bool{o.List[1].Int(): true})
+				if o.List[1].Int() == 0 {
+					mtiWritten = true
+				}
+			case "unset":
+				delete(want, o.List[1].Int())
+				if o.List[1].Int() == 0 {
+					mtiWritten = false
+				}
+			case "unsetp":
+				if p := string(o.List[1].Hex()); !strings.Contains(p, ".") {
+					if n, err := strconv.Atoi(p); err == nil {
+						delete(want, n)
+						if n == 0 {
+							mtiWritten = false
+						}
+					}
+				}
+			case "fromjson":
+				only := map[int]bool{}
+				if keys, err := jsonKeys(renderJdoc(o.List[1])); err == nil {
+					for _, k := range keys {
+						if n, err := strconv.Atoi(k); err == nil {
+							only[n] = true
+							if n == 0 {
+								_, mtiWritten = m.GetFields()[0]
+							}
+						}
+					}
+					resync(m, only)
+				} else {
+					known = false
+				}
+			case "unpack":
+				want = map[int]bool{}
+				resync(m, nil)
+				_, mtiWritten = m.GetFields()[0]
+				known = true
+			case "clone":
+				// the clone is a new message built by Pack / Unpack: it holds what the original held - provided the
+				// original is a message (has an MTI); otherwise the clone is whatever Unpack made of the bytes
+				if !mtiWritten {
+					want = map[int]bool{}
+					resync(m, nil)
+					_, mtiWritten = m.GetFields()[0]
+				}
+			}
+			if known {
+				var w []int
+				for id := range want {
+					w = append(w, id)
+				}
+				sort.Ints(w)
+				if fmt.Sprint(w) != fmt.Sprint(presentIDs(m)) {
+					fs = append(fs, Finding{"c14-present-set", fmt.Sprintf("after step %d (%s) GetFields reports %v, but the elements written and not unset since creation / the last Unpack are %v", i, o.Head(), presentIDs(m), w)})
+					return
+				}
+				if _, has := m.GetFields()[0]; has != mtiWritten {
+					fs = append(fs, Finding{"c14-present-set:mti", fmt.Sprintf("after step %d (%s) the MTI is reported present=%v, written and not unset=%v", i, o.Head(), has, mtiWritten)})
+					return
+				}
+			}
+			// unsetting discards everything below; later writes never bring anything back: after a write of v to element id
+			// every node of its value was there before the write or is part of v, and after unsetting a path no node at or
+			// below that path remains
+			switch o.Head() {
+			case "setval":
+				id := o.List[1].Int()
+				if id >= 2 {
+					before := map[string]bool{}
+					if pv, ok := prevObs[id]; ok && pv != nil {
+						valuePaths(pv, fmt.Sprint(id), before)
+					}
+					valuePaths(o.List[2], fmt.Sprint(id), before)
+					after := map[string]bool{}
+					if cur := observedVal(m, id); cur != nil {
+						valuePaths(cur, fmt.Sprint(id), after)
+					}
+					for p := range after {
+						if !before[p] {
+							fs = append(fs, Finding{"c14-resurrected", fmt.Sprintf("after step %d (setval %d) subfield %s is populated though it was neither populated before this write nor part of it", i, id, p)})
+							return
+						}
+					}
+				}
+			case "unsetp":
+				path := string(o.List[1].Hex())
+				if n, err := strconv.Atoi(strings.SplitN(path, ".", 2)[0]); err == nil && n >= 2 {
+					after := map[string]bool{}
+					if cur := observedVal(m, n); cur != nil {
+						valuePaths(cur, fmt.Sprint(n), after)
+					}
+					for p := range after {
+						if p == path || strings.HasPrefix(p, path+".") {
+							fs = append(fs, Finding{"c14-unset-remains", fmt.Sprintf("after step %d (unset %s) subfield %s is still populated", i, path, p)})
+							return
+						}
+					}
+				}
+			}
+			for id := range m.GetFields() {
+				if id >= 2 {
+					prevObs[id] = observedVal(m, id)
+				}
+			}
+			for id := range prevObs {
+				if _, ok := m.GetFields()[id]; !ok {
+					delete(prevObs, id)
+				}
 			}
 			steps++
 			ids := presentIDs(m)
